@@ -236,7 +236,7 @@ func worker(t *testing.T, wid, workers int) {
 	rates := []uint64{1000, 8000, 64000, 1_000_000, 10_000_000, 100_000_000, 1_000_000_000, 10_000_000_000, 100_000_000_000}
 	bursts := []uint32{0, 1, 1500, 3000, 65536, 1 << 20, 10 << 20, 1<<32 - 1}
 	origins := []uint64{0, 1_000_000_000, 30 * 86400 * 1_000_000_000, 1 << 62, 1<<63 - 1_000_000_000_000}
-	nSeq := run.Pick(400, 8000)
+	nSeq := run.Pick(1600, 8000)
 	for si := wid; si < nSeq; si += workers {
 		rng := run.SubRand("seq", si)
 		rate := rates[rng.IntN(len(rates))]
